@@ -214,6 +214,18 @@ CHECKS['C18'] = dict(
     technique='nested-inductive model + monadic event semantics + two-phase commutation proof + generated table + tracer-object oracle',
     design='4/C18')
 
+CHECKS['C19'] = dict(
+    text='Partial proof. Kernel-checked: for one function graph, any in/out type maps closed under the visit_node inclusions are sound for '
+         'every execution along CFG edges, for all variables whose every binding the inferrer types, with a truthful resolver (invariant '
+         'over the trace); a certificate theorem reduces these hypotheses to a decidable check. Each run re-validates in Coq that the real '
+         'Analyzer\'s maps meet the hypotheses (certificate) and that the model worklist reproduces them, on seeded generated functions; an '
+         'instrumented twin compares every annotated expression / binding / closure capture with type() at run time. Variables with an '
+         'untyped binding are refuted by machine-checked witnesses and listed as known findings.',
+    note=NOTE_BASE + 'Worklist termination / fixed point validated per function, not proved; nested functions (closure types, side '
+         'effects, alias calls) covered by the run-time oracle only; resolver truthfulness by construction of the scripted resolver.',
+    technique='dataflow invariant proof + certificate checking in Coq + instrumented differential oracle',
+    design='4/C19')
+
 NOT_YET = {}
 
 
